@@ -12,6 +12,7 @@ import (
 )
 
 type Clause struct {
+	Assumed bool // an ensures clause that call sites may use but the body is not checked against (listed in evidence)
 	Src   string
 	Expr  *Expr
 	Props []string
@@ -451,7 +452,7 @@ func (cs *ContractSet) parseFile(repo, path string) error {
 				curF.Options = map[string]bool{}
 			}
 			for _, o := range strings.Fields(rest) {
-				if o != "elemlinks" && o != "split" {
+				if o != "elemlinks" && o != "split" && o != "split32" {
 					return fail(l, "unknown option "+o)
 				}
 				curF.Options[o] = true
@@ -470,6 +471,17 @@ func (cs *ContractSet) parseFile(repo, path string) error {
 						curF.AssumeCallee = append(curF.AssumeCallee, n)
 					}
 				}
+				break
+			}
+			if curF != nil && strings.HasPrefix(strings.TrimSpace(rest), "ensures ") {
+				// "assumed ensures E": callers may rely on E, the body is not checked against it
+				c, err := mkClause(l, strings.TrimPrefix(strings.TrimSpace(rest), "ensures "), nil)
+				if err != nil {
+					return err
+				}
+				c.Assumed = true
+				cs.assumeCount++
+				curF.Ensures = append(curF.Ensures, c)
 				break
 			}
 			if curF == nil || strings.TrimSpace(rest) != "requires" {
